@@ -120,6 +120,19 @@ def random_delaunay_mesh(rng, npts=40):
 
 
 def structured_mesh(nx=6, ny=5, jitter=0.0, rng=None):
+    # the triangulation is fixed while the interior points are jittered: some draws make a boundary cell whose
+    # circumcentres fall outside the domain, which the library refuses ("Malformed Voronoi cell"); such a draw is
+    # not a mesh of the zoo -- draw again (the generator's business, not a finding)
+    for _attempt in range(50):
+        try:
+            return _structured_mesh(nx, ny, jitter, rng)
+        except ValueError as e:
+            if "Malformed Voronoi cell" not in str(e) or not jitter or rng is None:
+                raise
+    raise V.Infra("could not draw a jittered structured mesh the library accepts")
+
+
+def _structured_mesh(nx, ny, jitter, rng):
     xs, ys = np.meshgrid(np.arange(nx, dtype=float), np.arange(ny, dtype=float))
     pts = np.stack([xs.ravel(), ys.ravel()], axis=1)
     if jitter and rng is not None:
